@@ -179,58 +179,8 @@ def out4(units, R):
              'reachable only through the false edge of p->noalloc' if ok else 'the caller-supplied buffer could be reallocated/replaced',
              key='noalloc-gate:%s' % indirect_field(c))
     R.floor('OUT4', 'allocator calls in ensure', len(allocs), 2)
-    # 2. non-NULL results: `return p->buffer + p->offset` only under needed(+offset+1) <= length ; other non-NULL returns come
-    #    after growth (new length >= needed)
-    rets = [r for r in cfg.returns() if r.expr is not None and not is_null_const(r.expr)]
-    fit = None
-    for b in cfg.nodes:
-        if b.kind != 'branch':
-            continue
-        e = strip_casts(b.expr)
-        if e.get('k') == 'bin' and e['op'] in ('<=', '<', '>=', '>') and is_ref(e['l']) and strip_casts(e['l'])['d'] == needed['d'] \
-                and is_mem(e['r'], 'length'):
-            fit = (b, e)
-    R.ob('OUT4', fn, None, 'ensure compares the request against the buffer length', fit is not None, '', key='fit-test')
-    if fit is not None:
-        b, e = fit
-        # needed was increased by offset + 1 before the comparison
-        incs = [a for a in assignments(fn) if a['op'] == '+=' and is_ref(a['l']) and strip_casts(a['l'])['d'] == needed['d']]
-        ok_inc = False
-        slack = None
-        for a in incs:
-            r = strip_casts(a['r'])
-            terms = []
-
-            def flat(x):
-                x = strip_casts(x)
-                if x.get('k') == 'bin' and x['op'] == '+':
-                    flat(x['l'])
-                    flat(x['r'])
-                else:
-                    terms.append(x)
-            flat(r)
-            has_off = any(t.get('k') == 'mem' and t['f'] == 'offset' for t in terms)
-            consts = sum(const_val(t) or 0 for t in terms if const_val(t) is not None)
-            if has_off and cfg.dominates(node_containing(cfg, a).id, b.id):
-                ok_inc = True
-                slack = consts
-        R.ob('OUT4', fn, b.expr, 'the comparison accounts for the bytes already written (offset) and the terminator', ok_inc and slack is not None and slack >= 1 and e['op'] in ('<=',),
-             'needed += offset + %s; needed %s length' % (slack, e['op']), key='fit-accounting')
-        fitret = [r for r in rets if guarded_by(cfg, r.id, lambda nn, l: nn.id == b.id and l is not None and l[0] == 'T')]
-        R.ob('OUT4', fn, None, 'the in-place result is returned only when the request fits', bool(fitret), '', key='fit-return')
-        for r in fitret:
-            ex = strip_casts(r.expr)
-            ok = ex.get('k') == 'bin' and ex['op'] == '+' and is_mem(ex['l'], 'buffer') and is_mem(ex['r'], 'offset')
-            R.ob('OUT4', fn, r.stmt, 'the in-place result is buffer + offset', ok, expr_str(ex), key='fit-result')
-    # 3. refusals that must precede the comparison
-    for what, test in (('needed > INT_MAX', lambda e: e.get('k') == 'bin' and e['op'] in ('>', '>=') and is_ref(e['l']) and
-                        strip_casts(e['l'])['d'] == needed['d'] and const_val(e['r']) is not None and const_val(e['r']) >= 2147483647),
-                       ('offset >= length', lambda e: e.get('k') == 'bin' and e['op'] in ('>=', '>') and is_mem(e['l'], 'offset') and is_mem(e['r'], 'length'))):
-        bs = [b for b in cfg.nodes if b.kind == 'branch' and test(strip_casts(b.expr))]
-        ok = bool(bs) and fit is not None and any(fit[0].id in cfg.reachable(b.id) and b.id not in cfg.reachable(fit[0].id) and
-                                                  all(cfg.nodes[y].kind == 'return' and is_null_const(cfg.nodes[y].expr)
-                                                      for (y, l) in cfg.succ[b.id] if l and l[0] == 'T') for b in bs)
-        R.ob('OUT4', fn, None, 'refusal `%s` precedes the capacity comparison' % what, ok, '', key='refusal:' + what)
+    # 2./3. what a non-NULL result promises, decided path by path with linear expressions over needed / offset / length
+    _ensure_contract(u, fn, cfg, R)
     # 4. PrintPreallocated set-up
     pp = u.fn('cJSON_PrintPreallocated')
     want = {'buffer': 'buffer', 'length': 'length', 'noalloc': 1, 'offset': 0}
@@ -272,6 +222,254 @@ def out4(units, R):
                      '%s changes the capacity bookkeeping of a buffer it was handed' % expr_str(a)[:50], key='bookkeeping:%s:%s' % (fn2.name, l['f']))
     R.ob('OUT4', None, None, 'capacity bookkeeping (buffer/length/noalloc) is written only by ensure and the set-up functions', True,
          '%d offending stores' % n, key='bookkeeping', file='cJSON.c', line=0)
+
+
+def _ensure_contract(u, fn, cfg, R):
+    """Every path of ensure() that returns a pointer: the pointer is <the buffer the path leaves in p->buffer> + p->offset, that
+    buffer has room for needed + offset + 1 bytes (the branch conditions on the path, as linear facts over N = needed,
+    O = p->offset, L = p->length on entry, must entail it), p->length describes that buffer, and the offset was valid
+    (L > 0 implies O < L)."""
+    from .outsym import Lin
+    pd = fn.params[0]['d']
+    nd = fn.params[1]['d']
+    N, O, L = Lin(0, {'N': 1}), Lin(0, {'O': 1}), Lin(0, {'L': 1})
+
+    def scale(x, k):
+        return Lin(x.c * k, {kk: v * k for kk, v in x.t.items()})
+
+    class S(object):
+        pass
+
+    def copy(st):
+        s2 = S()
+        s2.env = dict(st.env)
+        s2.fld = dict(st.fld)
+        s2.cons = list(st.cons)
+        s2.alloc = dict(st.alloc)
+        s2.truth = dict(st.truth)
+        return s2
+
+    def truth_of(e, st):
+        e = strip_casts(e)
+        if e.get('id') in st.truth:
+            return st.truth[e['id']]
+        if e.get('k') == 'un' and e['op'] == '!':
+            t = truth_of(e['e'], st)
+            return None if t is None else (not t)
+        if e.get('k') == 'bin' and e['op'] == '&&':
+            l = truth_of(e['l'], st)
+            if l is False:
+                return False
+            r = truth_of(e['r'], st)
+            return r if l is True else None
+        if e.get('k') == 'bin' and e['op'] == '||':
+            l = truth_of(e['l'], st)
+            if l is True:
+                return True
+            r = truth_of(e['r'], st)
+            return r if l is False else None
+        return None
+
+    def ev(e, st):
+        v = const_val(e)
+        if e.get('null') or strip_casts(e).get('null') or (v == 0 and u.ty(e['ty'])['c'] == 'ptr'):
+            return ('null',)
+        if v is not None:
+            return Lin(v)
+        e = strip_casts(e)
+        k = e.get('k')
+        if k == 'ref':
+            if e.get('d') in st.env:
+                return st.env[e['d']]
+            return ('opaque', e.get('n'))
+        if k == 'mem':
+            b = strip_casts(e['b'])
+            if b.get('k') == 'ref' and b.get('d') == pd:
+                return st.fld.get(e['f'], ('opaque', 'p->' + e['f']))
+            return ('opaque', expr_str(e))
+        if k == 'bin' and e['op'] in ('+', '-'):
+            l, r = ev(e['l'], st), ev(e['r'], st)
+            if isinstance(l, Lin) and isinstance(r, Lin):
+                return l.add(r, 1 if e['op'] == '+' else -1)
+            if isinstance(l, tuple) and l[0] == 'ptr' and isinstance(r, Lin):
+                return ('ptr', l[1], l[2].add(r, 1 if e['op'] == '+' else -1))
+            if isinstance(r, tuple) and r[0] == 'ptr' and isinstance(l, Lin) and e['op'] == '+':
+                return ('ptr', r[1], r[2].add(l))
+            return ('opaque', expr_str(e)[:30])
+        if k == 'bin' and e['op'] == '*':
+            l, r = ev(e['l'], st), ev(e['r'], st)
+            if isinstance(l, Lin) and isinstance(r, Lin):
+                if not r.t:
+                    return scale(l, r.c)
+                if not l.t:
+                    return scale(r, l.c)
+            return ('opaque', expr_str(e)[:30])
+        if k == 'cond':
+            t = truth_of(e['c'], st)
+            if t is not None:
+                return ev(e['t'] if t else e['e'], st)
+            return ('opaque', expr_str(e)[:30])
+        if k == 'call':
+            f = indirect_field(e) if callee_name(e) is None else None
+            if f in ('allocate', 'reallocate'):
+                size = ev(e['args'][-1], st)
+                name = 'NEW%d' % e['id']
+                st.alloc[name] = size if isinstance(size, Lin) else None
+                return ('ptr', name, Lin(0))
+            return ('opaque', expr_str(e)[:30])
+        return ('opaque', expr_str(e)[:30])
+
+    def assign(lhs, val, st):
+        l = strip_casts(lhs)
+        if l.get('k') == 'ref':
+            st.env[l['d']] = val
+        elif l.get('k') == 'mem' and strip_casts(l['b']).get('d') == pd:
+            st.fld[l['f']] = val
+
+    def execute(node, st):
+        from ..dataflow import node_effects as ne
+        if node.kind == 'decl':
+            if 'init' in node.decl:
+                st.env[node.decl['d']] = ev(node.decl['init'], st)
+            return
+        if node.expr is None:
+            return
+        for evn in ne(node):
+            if evn.kind == 'store':
+                a = evn.node
+                if a['op'] == '=':
+                    assign(a['l'], ev(a['r'], st), st)
+                elif a['op'] in ('+=', '-='):
+                    cur, r = ev(a['l'], st), ev(a['r'], st)
+                    if isinstance(cur, Lin) and isinstance(r, Lin):
+                        assign(a['l'], cur.add(r, 1 if a['op'] == '+=' else -1), st)
+                    else:
+                        assign(a['l'], ('opaque', '?'), st)
+                else:
+                    assign(a['l'], ('opaque', '?'), st)
+
+    def add_fact(e, truth, st):
+        e = strip_casts(e)
+        if not (e.get('k') == 'bin' and e['op'] in ('<', '<=', '>', '>=', '==', '!=')):
+            return
+        l, r = ev(e['l'], st), ev(e['r'], st)
+        if not (isinstance(l, Lin) and isinstance(r, Lin)):
+            return
+        op = e['op']
+        if not truth:
+            op = {'<': '>=', '<=': '>', '>': '<=', '>=': '<', '==': '!=', '!=': '=='}[op]
+        d = l.add(r, -1)
+        # normalise to  X <= 0
+        if op == '<=':
+            st.cons.append(d)
+        elif op == '<':
+            st.cons.append(d.add(Lin(1)))
+        elif op == '>=':
+            st.cons.append(scale(d, -1))
+        elif op == '>':
+            st.cons.append(scale(d, -1).add(Lin(1)))
+        elif op == '==':
+            st.cons.append(d)
+            st.cons.append(scale(d, -1))
+
+    st0 = S()
+    st0.env = {nd: N}
+    st0.fld = {'offset': O, 'length': L, 'buffer': ('ptr', 'BUF0', Lin(0))}
+    st0.cons = []
+    st0.alloc = {}
+    st0.truth = {}
+    results = []
+    work = [(cfg.entry.id, st0)]
+    steps = 0
+    while work:
+        nid, st = work.pop()
+        steps += 1
+        if steps > 5000:
+            raise AnalysisBroken('OUT4: paths of ensure do not finish (loop?)')
+        node = cfg.nodes[nid]
+        if node.kind == 'return':
+            results.append((node, ev(node.expr, st) if node.expr is not None else ('null',), st))
+            continue
+        st = copy(st)
+        # a selection that the CFG left inside the statement: decide it both ways, with its condition as a fact
+        root = node.expr if node.expr is not None else (node.decl.get('init') if node.kind == 'decl' and node.decl else None)
+        pending = [x for x in walk(root) if x.get('k') == 'cond' and x.get('id') not in (node.skip or ()) and
+                   truth_of(x['c'], st) is None] if root is not None else []
+        if pending and node.kind != 'branch':
+            c0 = pending[0]['c']
+            for tv in (True, False):
+                s1 = copy(st)
+                s1.truth[strip_casts(c0)['id']] = tv
+                add_fact(c0, tv, s1)
+                work.append((nid, s1))
+            continue
+        execute(node, st)
+        for (y, label) in cfg.succ[nid]:
+            s2 = st
+            if label is not None and label[0] in ('T', 'F') and node.kind == 'branch':
+                s2 = copy(st)
+                truth = label[0] == 'T'
+                e = strip_casts(label[1])
+                if label[1].get('id') is not None:
+                    s2.truth[label[1]['id']] = truth
+                if e.get('id') is not None:
+                    s2.truth[e['id']] = truth
+                if e.get('k') == 'bin' and e['op'] in ('<', '<=', '>', '>=', '==', '!='):
+                    l, r = ev(e['l'], s2), ev(e['r'], s2)
+                    if isinstance(l, Lin) and isinstance(r, Lin):
+                        add_fact(e, truth, s2)
+                    else:
+                        # NULL tests of a fresh block: the variable is NULL on the null side
+                        dead = False
+                        for (x, y2) in ((e['l'], e['r']), (e['r'], e['l'])):
+                            if is_null_const(y2) and is_ref(x) and s2.env.get(strip_casts(x)['d']) == ('null',) and e['op'] in ('==', '!='):
+                                if ((e['op'] == '==') == truth) is False:
+                                    dead = True        # already known to be NULL: the non-NULL side cannot be taken
+                        if dead:
+                            continue
+                        for (x, y2) in ((e['l'], e['r']), (e['r'], e['l'])):
+                            if is_null_const(y2) and is_ref(x) and isinstance(s2.env.get(strip_casts(x)['d']), tuple) and \
+                                    s2.env[strip_casts(x)['d']][0] == 'ptr' and e['op'] in ('==', '!='):
+                                isnull = (e['op'] == '==') == truth
+                                if isnull:
+                                    s2.env[strip_casts(x)['d']] = ('null',)
+                elif is_ref(e) and s2.env.get(e['d']) == ('null',) and truth:
+                    continue
+                elif is_ref(e) and isinstance(s2.env.get(e['d']), tuple) and s2.env[e['d']][0] == 'ptr' and not truth:
+                    s2.env[e['d']] = ('null',)
+            work.append((y, s2))
+
+    def entails(cons, target):
+        """some fact X <= 0 on the path gives target <= 0 (target <= X coefficient-wise, all symbols being non-negative)"""
+        return any(target.leq(c) for c in cons) or target.leq(Lin(0))
+    need = N.add(O).add(Lin(1))
+    n_ok = 0
+    for (node, val, st) in results:
+        if not (isinstance(val, tuple) and val[0] == 'ptr'):
+            if isinstance(val, tuple) and val[0] == 'null':
+                continue
+            R.ob('OUT4', fn, node.stmt, 'result of ensure is NULL or a position in the buffer', False, 'returns %s' % (val,), key='result-kind:%d' % node.line)
+            continue
+        n_ok += 1
+        base, off = val[1], val[2]
+        bf = st.fld.get('buffer')
+        R.ob('OUT4', fn, node.stmt, 'the result is the buffer + offset', off.eq(O) and isinstance(bf, tuple) and bf[0] == 'ptr' and
+             bf[1] == base and bf[2].eq(Lin(0)),
+             'returns %s + %s, p->buffer is %s' % (base, off, st.fld.get('buffer')), key='fit-result:%s' % ('inplace' if base == 'BUF0' else 'grown'))
+        cap = L if base == 'BUF0' else st.alloc.get(base)
+        okc = cap is not None and entails(st.cons, need.add(cap, -1)) if cap is not None else False
+        if cap is not None and not okc and base != 'BUF0':
+            okc = need.leq(cap)
+        R.ob('OUT4', fn, node.stmt, 'a non-NULL result has room for needed + offset + 1 bytes', bool(okc),
+             'capacity %s; the conditions on this path give needed + offset + 1 <= capacity' % cap if okc else
+             'capacity %s is not shown to hold N + O + 1 on this path' % cap, key='fit-accounting:%s' % ('inplace' if base == 'BUF0' else 'grown'))
+        lenf = st.fld.get('length')
+        R.ob('OUT4', fn, node.stmt, 'p->length describes the buffer the result points into', isinstance(lenf, Lin) and cap is not None and lenf.eq(cap),
+             'p->length = %s, capacity %s' % (lenf, cap), key='fit-length:%s' % ('inplace' if base == 'BUF0' else 'grown'))
+        okv = entails(st.cons, O.add(Lin(1)).add(L, -1)) or entails(st.cons, L)
+        R.ob('OUT4', fn, node.stmt, 'the offset was valid (inside a non-empty buffer)', okv,
+             'offset < length or length == 0 holds on this path' if okv else 'offset >= length is not refused on this path', key='refusal:offset')
+    R.floor('OUT4', 'non-NULL results of ensure', n_ok, 2)
 
 
 # ---- TAB2 print funnel ------------------------------------------------------------------------------------------------------------------
